@@ -618,14 +618,28 @@ def _run(ck, pid, tier, thorough, pool):
         t.start()
 
     # ---- 2. TLC enumerates the vectors --------------------------------------
-    vecs, res = generate(tier, "all")
+    wbox = []
+
+    def gen_walk():
+        try:
+            wbox.append(generate(tier, "walk", depth=6, simulate="num=%d" % (1500 if thorough else 150), seed=common.SEED + 19))
+        except Exception as e:
+            errs.append(e)
+    wthread = threading.Thread(target=gen_walk)
+    wthread.start()
+    try:
+        vecs, res = generate(tier, "all")
+    finally:
+        wthread.join()
+    if errs:
+        raise errs[0]
     ck.models.append({"module": "CliGen", "cfg": "Family=all Tier=%s" % tier,
                       "what": "vector enumeration: place + pairs + table", **res.summary()})
     ck.states += res.distinct
     ck.transitions += res.generated
-    walk, wres = generate(tier, "walk", depth=6, simulate="num=%d" % (1500 if thorough else 150), seed=common.SEED + 19)
+    walk, wres = wbox[0]
     ck.models.append({"module": "CliGen", "cfg": "Family=walk (simulate)", "what": "random walks of 6 placement changes from the base vectors",
-                      **wres.summary()})
+                      **dict(wres.summary(), distinct=len(walk))})
     n_enum = len(vecs)
     for k, g in walk.items():
         vecs.setdefault(k, g)
@@ -898,6 +912,8 @@ def replay(pid, path):
     rejected, _ = validate_traces("CliTrace", "CliTrace.cfg", [evs])
     print("replay %s: argv=%r observed=%s" % (path, case["argv"], {k: res[0][k] for k in ("outcome", "etype", "msg", "files")}))
     if rejected:
+        if rejected[0][1].startswith("Harness"):
+            raise MachineryError("replay file is inconsistent: %s" % rejected[0][1])
         print("VIOLATION property=%s replay=%s clause=%s" % (pid, path, rejected[0][1]))
         return 1
     print("accepted by Cli.tla")
